@@ -371,7 +371,11 @@ func genC12(m *M, budget int) {
 				if f.rng.Intn(3) == 0 { // numerator with boundary / structured Montgomery limbs (either square-ness)
 					w, wc := f.resultTarget(bigP)
 					f.class("sqrt_ratio:u_" + wc)
-					f.setInt(a, mulmod(new(big.Int).Mod(w, bigP), rInvP, bigP))
+					uv := mulmod(new(big.Int).Mod(w, bigP), rInvP, bigP)
+					if a == b && uv.Sign() == 0 {
+						uv.SetInt64(1) // u and v are the same register: v = 0 is outside the statement
+					}
+					f.setInt(a, uv)
 				} else if f.rng.Intn(2) == 0 { // make u/v a square on purpose half of the time: u = v * t^2
 					t := f.randBig(bigP)
 					vv := new(big.Int).SetBytes(f.F[b].Bytes())
